@@ -76,6 +76,7 @@ func (t *Tokenizer) Parse(buf []byte, handler oj.TokenHandler) (err error) {
 	t.line = 1
 	t.mode = valueMap
 	t.mi = 0
+	t.exkey = false
 	t.hi = 0
 	defer func() {
 		if r := recover(); r != nil {
@@ -108,6 +109,7 @@ func (t *Tokenizer) Load(r io.Reader, handler oj.TokenHandler) (err error) {
 	t.noff = -1
 	t.line = 1
 	t.mi = 0
+	t.exkey = false
 	t.hi = 0
 	buf := make([]byte, readBufSize)
 	eof := false
